@@ -62,6 +62,7 @@ class SurfaceSubdivision(Logger):
             A,B,C,D = self.mesh.faces[face_id]
             self.mesh.faces[face_id] = [A,B,D]
             self.mesh.faces.append([B,C,D])
+            self.mesh.edges.append(keyify(B,D)) # the new diagonal (later operations of the block look edges up)
         else:
             self.split_face_as_fan(face_id)
 
@@ -166,6 +167,7 @@ class SurfaceSubdivision(Logger):
             newMeshData.vertices.append(pC)
             half[keyify(A,B)]=C
 
+        new_edges = set()
         bary = dict()
         for iF,F in enumerate(self.mesh.faces):
             pS = sum([self.mesh.vertices[u] for u in F])/3
@@ -185,6 +187,9 @@ class SurfaceSubdivision(Logger):
                 [C, mCA, S, mBC],
             ]:
                 newMeshData.faces.append(new_face)
+            for new_edge in [(A,mAB),(mAB,B),(B,mBC),(mBC,C),(C,mCA),(mCA,A),(mAB,S),(mBC,S),(mCA,S)]:
+                new_edges.add(keyify(new_edge))
+        newMeshData.edges += list(new_edges)
         self.mesh = newMeshData
 
 @allowed_mesh_types(SurfaceMesh)
